@@ -50,6 +50,7 @@ type Script struct {
 	Compressible bool        `json:"compressible,omitempty"`
 	Raw          string      `json:"raw,omitempty"`           // hijack and write these literal bytes, then close
 	RawReset     bool        `json:"raw_reset,omitempty"`     // close with RST after Raw
+	RawHoldMs    int         `json:"raw_hold_ms,omitempty"`   // after Raw keep the connection open (reading) this long, or until the peer closes
 	Gzip         bool        `json:"gzip,omitempty"`          // body bytes are a gzip stream of the generated body
 	HangFirst    bool        `json:"hang_first,omitempty"`    // never send a header block (wait until the peer gives up)
 	HoldFirstMs  int         `json:"hold_first_ms,omitempty"` // wait this long before sending the header block
@@ -421,6 +422,10 @@ func (b *Backend) serve(w http.ResponseWriter, r *http.Request) {
 		}
 		if sc.Raw != "" {
 			c.Write([]byte(sc.Raw))
+		}
+		if sc.RawHoldMs > 0 {
+			c.SetReadDeadline(time.Now().Add(time.Duration(sc.RawHoldMs) * time.Millisecond))
+			io.Copy(io.Discard, c)
 		}
 		if sc.RawReset {
 			if tc, ok := c.(*net.TCPConn); ok {
